@@ -256,8 +256,8 @@ AXIOMS = {
     'C01': [('re_gt', ax_re_gt)], 'C13': [('re_gt', ax_re_gt)], 'C04': [('re_gt', ax_re_gt)],
     'C15': [('args_ref', ax_args_ref)],
     'C10': [('env_ref', ax_env_ref)],
-    'C11': [('dollar_splice', ax_dollar_splice), ('dollar_template', ax_dollar_template), ('dot', ax_dot)],
-    'C05': [('dollar_splice', ax_dollar_splice), ('dot', ax_dot), ('args_ref', ax_args_ref), ('env_ref', ax_env_ref)],
+    'C11': [('dot', ax_dot)],
+    'C05': [('dot', ax_dot), ('args_ref', ax_args_ref), ('env_ref', ax_env_ref)],
 }
 
 
